@@ -4,6 +4,9 @@
 #include <yaclib/fault/detail/fiber/scheduler.hpp>
 
 #include <cstdio>
+#ifdef YACLIB_VERIF
+#  include <yaclib/fault/verif.hpp>
+#endif
 
 namespace yaclib::fault {
 
@@ -90,6 +93,11 @@ void Scheduler::RunLoop() {
     WakeUpNeeded();
     auto* next = GetNext();
     sCurrent = next;
+#ifdef YACLIB_VERIF
+    if (verif::gHooks.on_resume != nullptr) {
+      verif::gHooks.on_resume(verif::gHooks.ctx, next->GetId());
+    }
+#endif
     TickTime();
     next->Resume();
     if (next->GetState() == detail::fiber::Completed && !next->IsThreadAlive()) {
@@ -145,6 +153,25 @@ void SetRandomListPick(std::uint32_t k) noexcept {
 }
 
 Node* PollRandomElementFromList(BiList& list) {
+#ifdef YACLIB_VERIF
+  if (verif::gHooks.pick != nullptr) {
+    unsigned n = 0;
+    if (auto* first = list.GetElement(0, false); first != nullptr) {
+      auto* last = list.GetElement(0, true);
+      n = 1;
+      for (auto* node = first; node != last; node = node->next) {
+        ++n;
+      }
+    }
+    if (n != 0) {
+      if (int r = verif::gHooks.pick(verif::gHooks.ctx, n); r >= 0) {
+        auto* chosen = list.GetElement(static_cast<std::size_t>(r), false);
+        chosen->Erase();
+        return chosen;
+      }
+    }
+  }
+#endif
   auto rand_pos = detail::GetRandNumber(2 * sRandomListPick);
   auto reversed = false;
   if (rand_pos >= sRandomListPick) {
